@@ -5,6 +5,7 @@ import json
 import time
 import math
 import signal
+import numpy as np
 import random
 import hashlib
 import shutil
@@ -180,13 +181,50 @@ def _alarm(signum, frame):
     raise CaseTimeout('case exceeded its CPU budget')
 
 
+def canary_setup(check):
+    """A check may define canary(): a fixed, ordinary call sequence of the functions under test whose answer cannot
+    legitimately depend on what ran before it in the process.  It returns a list of comparable tuples, ('raised', type, text)
+    for a call that raised.  Its answer in the fresh process (taken twice, right after setup) is the reference; it is run again
+    after every case, so a case also observes what its calls leave behind for the next caller (numpy error state, warning
+    filters, module globals, caches, default arguments ...).  canary() must not use np.errstate()/catch_warnings(record=...)
+    in a way that would itself put such state back."""
+    check._canary_ref = None
+    if hasattr(check, 'canary'):
+        check._canary_ref = check.canary()
+        check._canary_twice = check.canary() == check._canary_ref
+
+
+def canary_check(check, out):
+    if getattr(check, '_canary_ref', None) is None:
+        return
+    got = check.canary()
+    out.count('canary_sequences')
+    bad = [r for r in got if r[0] == 'raised']
+    if bad or not check._canary_twice:
+        out.fail('history', 'the fixed canary sequence (ordinary calls one after another) %s'
+                 % ('raised %s: %s' % tuple(bad[0][1:3]) if bad else 'gave two different answers when run twice in the fresh process'),
+                 numpy_errstate=str(np.geterr()))
+    elif got != check._canary_ref:
+        k = [i for i, (a, b) in enumerate(zip(got, check._canary_ref)) if a != b][0]
+        out.fail('history', 'after this case the fixed canary sequence gives another answer than in the fresh process (call %d): '
+                 'something the calls left behind changes later, unrelated calls' % k, numpy_errstate=str(np.geterr()))
+
+
 def run_one(check, case, cls, idx):
     out = Out()
     check.rec.new_case()
+    errstate0 = np.geterr()
     signal.setitimer(signal.ITIMER_VIRTUAL, check.CASE_CPU_S)
     try:
         try:
-            check.run(case, out)
+            try:
+                check.run(case, out)
+            finally:
+                canary_check(check, out)
+                if np.geterr() != errstate0:
+                    # diagnostic only: the verdict comes from the canary / later calls, not from the state itself
+                    out.info['numpy_errstate_changed'] = '%s -> %s' % (errstate0, np.geterr())
+                    out.count('numpy_errstate_changed_by_case')
         finally:
             signal.setitimer(signal.ITIMER_VIRTUAL, 0)
     except CaseTimeout:
@@ -214,6 +252,7 @@ def shard_main(check, tier, shard, nshards, seed, outpath, findings):
            'witness': {}}
     try:
         check.setup()
+        canary_setup(check)
         check.reach.start()
         budget = check.budget(tier)
         nont = set()
@@ -392,7 +431,9 @@ def parent_main(check, tier, seed, argv0, module_name):
         for k, v in r.get('known', {}).items():
             known_total[k] = known_total.get(k, 0) + v
     for v in viols:
-        if any(f['clause'] == 'harness-error' for f in v['fails']):
+        if all(f['clause'] == 'harness-error' for f in v['fails']):
+            # (a case that also carries a failed clause of the property is a violation: what was observed before the
+            # harness gave up on the case stands)
             inconclusive.append('harness error in case %s/%s: %s' % (v['class'], v['index'], v['fails'][0]['msg']))
             write_replay(pid, v)
             continue
@@ -509,6 +550,7 @@ def replay_main(check, path):
     check.workdir = tempfile.mkdtemp(prefix='verif_%s_' % check.ID)
     try:
         check.setup()
+        canary_setup(check)
         out = run_one(check, rec['case'], rec.get('class'), rec.get('index'))
     finally:
         check.teardown()
